@@ -245,6 +245,8 @@ CHECKS["C07"] = {
         H("c07.VH_parse", {"EXT": 7, "PRE": 4}, {"EXT": 10, "PRE": 4}, variant="after-sct", covers=["accepted by crypto/tls"], weight=4, tiers=("thorough",)),
         H("c07.VH_parse", {"EXT": 0, "VERS": 1}, {"EXT": 7, "VERS": 1}, variant="versions", covers=["accepted by crypto/tls"], weight=1),
         H("c07.VH_alpn", {"EXT": 10}, {"EXT": 12}, covers=["accepted by crypto/tls", "alpn matches"], weight=6),
+        H("c07.VH_alpn", {"EXT": 9, "EMPTYCFG": 1}, {"EXT": 11, "EMPTYCFG": 1}, variant="empty-config-value", covers=["accepted by crypto/tls", "alpn matches"], weight=5),
+        H("c07.VH_two_hellos", {}, {}, covers=["second hello matched"], weight=1),
         H("c07.VH_record", {"L": 50}, {"L": 58}, covers=["header incomplete", "not a handshake record", "hello incomplete", "hello complete"], weight=3),
     ],
     "level_text": "bounded differential model checking: the repository's parseRawClientHello and the standard library's own clientHelloMsg.unmarshal + clientHelloInfo (the live crypto/tls of the Go that builds the repository, reached through an overlay shim, both executed from SSA) run on the same symbolic ClientHello; whenever crypto/tls accepts the hello, server name, ALPN list, supported versions, cipher suites, curves, point formats and signature schemes must be equal; the alpn sub-matcher must equal exact membership in the server's list; record type / incomplete-hello rules of MatchTLS.Match are asserted directly",
@@ -255,13 +257,15 @@ CHECKS["C07"] = {
 }
 
 CHECKS["C16"] = {
-    "harnesses": [H("c16.VH_socks5", {"L": 16, "ROUNDS": 1, "CFG": i}, {"L": 18, "ROUNDS": 2, "CFG": i}, variant=f"cfg{i}", weight=3,
+    "harnesses": [H("c16.VH_socks5", {"L": 17 if i == 2 else 16, "ROUNDS": 1, "CFG": i}, {"L": 18, "ROUNDS": 2, "CFG": i}, variant=f"cfg{i}", weight=3,
                     covers=(["refused", "outbound action attempted"] if i not in (4, 5) else ["refused"]) + (["authenticated"] if i in (2, 3, 6) else []))
                   for i in range(9)] + [
         H("c16.VH_socks5_pair", {"L": 12, "ROUNDS": 1, "PAIR": i}, {"L": 14, "ROUNDS": 2, "PAIR": i}, variant=f"pair{i}", weight=3,
-          covers=["second handler provisioned", "refused", "outbound action attempted"]) for i in range(4)],
+          covers=["second handler provisioned", "refused", "outbound action attempted"]) for i in range(4)] + [
+        H("c16.VH_socks5_pair", {"L": 16, "ROUNDS": 1, "PAIR": i}, {"L": 17, "ROUNDS": 1, "PAIR": i}, variant=f"pair{i}", weight=3,
+          covers=["second handler provisioned", "refused", "outbound action attempted", "authenticated"]) for i in (4, 5)],
     "level_text": "bounded model checking of the real Socks5Handler.Provision + Handle with the go-socks5 library's ServeConn, method negotiation, user/password authentication, request parsing and rule check executed from SSA over an arbitrary client byte stream; the three outbound actions (and the resolver) are intercepted; asserted: an outbound action is started only for an enabled command and, when credentials are configured, only if the user/password bytes on the wire equal a configured pair (re-parsed independently per RFC 1928/1929)",
-    "level_note": "nine configurations (default commands; CONNECT only; BIND with one user; ASSOCIATE+BIND with two users incl. an empty password; a credential map holding only an empty user name; user names given as placeholders that resolve to nothing, alone and beside a real account; BIND only; ASSOCIATE only) and four pairs of handler instances provisioned one after the other (the first one is then served); client stream <= 16 (quick) / 18 (thorough) bytes delivered in 1-2 reads - enough for greeting, a 1-2 byte user and password and an IPv4 or short FQDN request; the native twin observes the outbound attempt through the reply code",
+    "level_note": "nine configurations (default commands; CONNECT only; BIND with one user; ASSOCIATE+BIND with two users incl. an empty password; a credential map holding only an empty user name; user names given as placeholders that resolve to nothing, alone and beside a real account; BIND only; ASSOCIATE only) and six pairs of handler instances provisioned one after the other (the first one is then served; for two pairs that differ only in a password - a reload that rotates it - the second one); client stream <= 16 (quick) / 18 (thorough) bytes delivered in 1-2 reads - enough for greeting, a 1-2 byte user and password and an IPv4 or short FQDN request; the native twin observes the outbound attempt through the reply code",
     "assumptions": ["handleConnect / handleBind / handleAssociate and DNSResolver.Resolve of go-socks5 are intercepted sinks", "zap/log are no-op stubs"],
     "outside": ["streams longer than the bound (long user names, IPv6 requests in the quick tier)", "placeholders that resolve to non-empty values", "what the outbound actions do once started"],
     "bounds": {"quick": "stream <= 16 bytes, one read", "thorough": "stream <= 18 bytes (pairs: 14), two reads"},
